@@ -179,7 +179,52 @@ func c05TwoConns(x *X) {
 	vs.Quiesce()
 }
 
+// a raw client writes a burst of requests and disappears while the first one is still executing:
+// whatever is executed is still executed one at a time and in order, in every server mode.
+func c05Disconnect(modes []c04Mode) func(x *X) {
+	return func(x *X) {
+		mode := modes[x.Choose(len(modes))]
+		n := 2 + x.Choose(3)
+		gated := x.Choose(2) == 1
+		enc := wireEncoder("")
+		so := mode.so
+		so.pipelining = true
+		w, srv, cl, net := rawServer(mode.sys, so)
+		for i := 0; i < n; i++ {
+			flags := byte(fYield)
+			if i == 0 && gated {
+				flags |= fGate
+			}
+			cl.WriteMessage(mkReq(enc, uint64(i+1), nil, "Svc.Echo", mkPayload(byte(i+1), flags, 12+5*i)))
+		}
+		cl.Close()
+		vs.Quiesce()
+		w.open(1)
+		vs.Quiesce()
+		for i := 1; i < len(w.startSeq); i++ {
+			if w.startSeq[i] <= w.startSeq[i-1] {
+				x.Fail("C05/execution-order/after-disconnect", "requests were sent in order 1..%d, the handlers started in order %v after the client disconnected (mode %s/%s)", n, w.startSeq, mode.sys.name, modeName(so))
+			}
+		}
+		if w.overlap > 0 {
+			x.Fail("C05/overlap/after-disconnect", "%d handler executions of one pipelined connection overlapped after the client disconnected (start order %v, end order %v)", w.overlap, w.startSeq, w.endSeq)
+		}
+		res := wireSeqs(enc, cl.Wire(), 1)
+		for i := 1; i < len(res); i++ {
+			if res[i] <= res[i-1] {
+				x.Fail("C05/response-order/after-disconnect", "responses were written in order %v", res)
+			}
+		}
+		x.Outcome("%s/%s n=%d gated=%v start=%v", mode.sys.name, modeName(so), n, gated, w.startSeq)
+		if net != nil {
+			srv.Close()
+		}
+		vs.Quiesce()
+	}
+}
+
 func init() {
+	register(&Scenario{Prop: "C05", Name: "c05/burst-then-disconnect", Quick: []Bound{{1, 0}, {2, 0}}, Thorough: []Bound{{3, 0}}, Body: c05Disconnect(c08SrvModes)})
 	register(&Scenario{Prop: "C05", Name: "c05/3calls", Quick: []Bound{{1, 0}, {2, 0}}, Thorough: []Bound{{3, 0}}, Body: c05Body(3)})
 	register(&Scenario{Prop: "C05", Name: "c05/4calls", Quick: []Bound{{1, 0}}, Thorough: []Bound{{2, 0}, {3, 0}}, Body: c05Body(4)})
 	register(&Scenario{Prop: "C05", Name: "c05/two-conns", Quick: []Bound{{1, 0}}, Thorough: []Bound{{2, 0}}, Body: c05TwoConns})
